@@ -24,6 +24,7 @@ from __future__ import annotations
 import copy
 import json
 
+from harness import histories
 from harness.core import LaneBase
 
 MUT = '__mut__'
@@ -478,6 +479,8 @@ def gen_case(rng, cls, api, order, mutate):
         return rng.choice([None, 0, 1, 1, 2])
     case = {'cls': cls, 'api': api, 'order': order, 'mutate': mutate,
             'gmeta': spec(), 'nodes': [[n, spec()] for n in names], 'edges': [e + [spec()] for e in edges]}
+    if order == 'later' and rng.random() < 0.4:
+        case['warmall'] = True
     if api in NEEDS_NODE:
         case['arg'] = rng.randrange(len(names))
     elif api == 'edge_to_dict':
@@ -752,6 +755,9 @@ class Lane(LaneBase):
         # ---- phase A: the sharing matrix of the real objects -------------------------------------------------
         try:
             e0 = None if cold else call_api(case, g, held)
+            if case.get('warmall'):
+                histories.warm_caches(g)
+                tags.append('warm-flags')
             token = recipe_token(case, g)
             shape = shape_tokens(g)
             e1 = call_api(case, g, held)
@@ -774,7 +780,7 @@ class Lane(LaneBase):
         oracle = self.oracle(case, cold)
         del e0
         return {'lines': [line], 'impl': [impl], 'oracle': oracle, 'nontrivial': bool(nested),
-                'key': dumps([case['cls'], api, case['order'], case['mutate'], token, shape]), 'tags': tags}
+                'key': dumps([case['cls'], api, case['order'], case['mutate'], bool(case.get('warmall')), token, shape]), 'tags': tags}
 
     # --------------------------------------------------------------------------------------------------------
     def oracle(self, case, cold):
@@ -793,6 +799,10 @@ class Lane(LaneBase):
         if api == 'from_dict':
             held['src'] = copy.deepcopy(g.to_dict())
         e0 = None if cold else call_api(case, g, held)
+        if case.get('warmall'):
+            # every memoising reader has answered (is_dag, is_minimal_graph, is_stationary_graph, variables, ...): a
+            # derived graph taken now must still be a new object
+            histories.warm_caches(g)
         src_snap = lambda: dumps(canon(held['src'])) if api == 'from_dict' else dumps(snapshot(g))
         snap0 = src_snap()
         e1 = call_api(case, g, held)
